@@ -1,27 +1,28 @@
 /-
 C03 / C01 for `squfof::squfof` (src/squfof.rs), the sub-algorithm behind `Algo::Squfof`:
 the model `Ymq.Squfof.squfof` (Ymq/Model/Squfof.lean, every overflow / underflow / division /
-assertion site of the checked profile is a `none`) never panics on what `factor()` hands over,
-and every pair it returns is a proper split.
+assertion site of the checked profile is a `none`) NEVER panics, for every `n` and every admissible
+seed (`squfof_no_panic`), and every pair it returns multiplies to `n` (`squfof_sound`) and is a
+proper split unless `n` is one of the 15 primes ≤ 47 (`squfof_proper`, exact:
+`squfof_trivial_split_small_primes`).
 
 The only parameter is the floating point seed of `isqrt`, `(m as f64).sqrt() as u64`: all theorems
 that need it hold for EVERY seed within 1 of the floor square root (`SeedOK`, named hypothesis;
 an IEEE-754 fact checked by the `squfof_seed` stream), and the run does not depend on which
 admissible seed is used (`squfof_seed_irrelevant`).
 
-FINDING (direct calls only): `squfof(n)` divides by zero (squfof.rs:33, both profiles) as soon as
-a round `k ≥ 2` is reached with `n·k` a perfect square: `n = 2, 3, 5, …, 47` (every prime ≤ 47),
-`50 = 2·5²`, `6000163058 = 2·54773²`, …  The guard `nsqrt * nsqrt == n` (squfof.rs:17) compares
-with `n`, not `n·k`, so it protects round 1 only. Not reachable from `factor()`: trial division
-removes the primes ≤ 199 first and `n·k` (k ≤ 50) square forces a prime factor ≤ 47 of a
-non-square `n` (`squfof_no_panic_reachable`). Hence `squfof_no_panic_partial` + exact set
-(`squfof_panic_iff`) + counter-witnesses instead of the full `squfof_no_panic`.
+HISTORY: before the repair f24afb6 (/repo) `squfof(n)` divided by zero as soon as a round `k ≥ 2`
+was reached with `n·k` a perfect square (`squfof(2)`, every prime ≤ 47, `50`, `6000163058`,
+`9223371873646019282`; direct calls only, `factor()` removes the primes ≤ 199 first): the guard
+`nsqrt * nsqrt == n` compares with `n`, not `n·k`. Such a round is now skipped
+(`attempt_skips_square`). Consequence of the skip: rounds `k ≥ n` are reachable for `n ≤ 50`, where
+`p_prev` can be a multiple of `n`; the code guards `f > 1` only, so `squfof(p) = (p, 1)` for the
+primes `p ≤ 47` (a trivial split; before the repair these calls panicked). Composite `n ≤ 50` and
+every `n ≥ 51` get proper splits.
 -/
 import Ymq.Lemmas.SqufofTop
 import Ymq.Lemmas.FactorClosed
 import Ymq.Lemmas.FactorClosedExample
-import Mathlib.Algebra.GCDMonoid.Nat
-import Mathlib.Data.Nat.Prime.Basic
 
 namespace Ymq.C03Squfof
 open Ymq.Squfof
@@ -57,54 +58,54 @@ theorem squfof_sound (seed : Nat → Nat) (n a b : Nat) (h : squfof seed n = som
         rcases this with rfl | rfl <;> omega
     · exact g
 
-/-- the shape of every returned pair: the two exits named in Lemmas/FactorClosed.lean, with the
-fact `0 < p_prev < n` at the gcd exit PROVED (it was a named premise there). The round that
-returns has `k < n`: round `k = n` would divide by zero first. -/
-theorem squfof_exit {seed : Nat → Nat} (hs : SeedOK seed) {n a b : Nat}
+/-- **C03, no panic (full strength)**: for every `n` (in particular every `n < 2^64`) and every
+admissible seed `squfof(n)` reaches no overflow, underflow, division by zero or failed assertion
+of the checked profile: it returns `None` or a pair. -/
+theorem squfof_no_panic {seed : Nat → Nat} (hs : SeedOK seed) (n : Nat) :
+    ∃ r, squfof seed n = some r := by
+  cases hr : squfof seed n with
+  | some r => exact ⟨r, rfl⟩
+  | none =>
+    exfalso
+    obtain ⟨j, _, _, hres⟩ := kLoop_first n 50 1 _ hr (by simp)
+    rcases hres with ⟨_, h0⟩ | ⟨a', b', h1, _⟩
+    · obtain ⟨r, hr'⟩ := attempt_total hs n (1 + j)
+      rw [hr'] at h0; simp at h0
+    · simp at h1
+
+/-- every single round is panic free -/
+theorem attempt_no_panic {seed : Nat → Nat} (hs : SeedOK seed) (n k : Nat) :
+    ∃ r, attempt seed n k = some r :=
+  attempt_total hs n k
+
+/-- the repaired case: a multiplier with `n·k < 2^64` a perfect square other than `n` itself
+(`k ≥ 2`, `n ≥ 1`) is skipped (`q == 0`, squfof.rs:26); it used to divide by zero. -/
+theorem attempt_skips_square {seed : Nat → Nat} (hs : SeedOK seed) {n k : Nat}
+    (hlt : n * k < 2 ^ 64) (hsq : IsSquare (n * k)) (hne : n * k ≠ n) :
+    attempt seed n k = some .next := by
+  apply attempt_square_skips hs hlt _ hne
+  obtain ⟨r, hr⟩ := hsq
+  rw [hr, Nat.sqrt_eq]
+
+/-- the shape of every returned pair for `n ≥ 51`: the two exits named in Lemmas/FactorClosed.lean,
+with the fact `0 < p_prev < n` at the gcd exit PROVED (it was a named premise there):
+`p_prev ≤ ⌊√(nk)⌋ < n` because `k ≤ 50 < n`. (For `n ≤ 50` the statement is false after the repair:
+`squfof_trivial_split_small_primes`.) -/
+theorem squfof_exit {seed : Nat → Nat} (hs : SeedOK seed) {n a b : Nat} (hn : 51 ≤ n)
     (h : squfof seed n = some (some (a, b))) : Ymq.Factor.SqufofExit n a b := by
-  rcases Nat.lt_or_ge n 2 with hn2 | hn
-  · -- n = 0, 1: the square test of round 1
-    have hsq : Nat.sqrt n * Nat.sqrt n = n := by
-      rcases (by omega : n = 0 ∨ n = 1) with rfl | rfl
-      · rw [← (Nat.eq_sqrt (n := 0) (a := 0)).2 ⟨by decide, by decide⟩]
-      · rw [← (Nat.eq_sqrt (n := 1) (a := 1)).2 ⟨by decide, by decide⟩]
-    have h1 : attempt seed n 1 = some (.ret (Nat.sqrt n) (Nat.sqrt n)) := by
-      rw [attempt_eq hs (by unfold W; omega), Nat.mul_one, if_pos hsq]
-    unfold squfof at h
-    rw [kLoop, h1] at h
-    injection h with h; injection h with h; injection h with ha hb
-    exact .square _ hsq ha.symm hb.symm
   obtain ⟨j, hj, hnext, hres⟩ := kLoop_first n 50 1 _ h (by simp)
   rcases hres with ⟨h0, _⟩ | ⟨a', b', h1, h2⟩
   · simp at h0
   injection h1 with h1; injection h1 with h1; injection h1 with ha hb
   subst ha hb
-  -- the returning round has k = 1 + j < n
-  have hkn : 1 + j < n := by
-    by_contra hc
-    have hpan : attempt seed n n = none := by
-      apply attempt_square_panic hs (by omega)
-      · have : n * n ≤ 50 * 50 := Nat.mul_le_mul (by omega) (by omega)
-        unfold W; omega
-      · rw [Nat.sqrt_eq]
-      · intro he
-        have : n * 2 ≤ n * n := Nat.mul_le_mul_left n hn
-        omega
-    rcases Nat.lt_or_ge (n - 1) j with hlt | hge
-    · have := hnext (n - 1) hlt
-      rw [show 1 + (n - 1) = n by omega, hpan] at this
-      simp at this
-    · have : 1 + j = n := by omega
-      rw [this, hpan] at h2
-      simp at h2
+  have hkn : 1 + j < n := by omega
   rcases Nat.lt_or_ge (n * (1 + j)) W with hlt | hge
   · by_cases hsq : Nat.sqrt (n * (1 + j)) * Nat.sqrt (n * (1 + j)) = n * (1 + j)
-    · -- a perfect square: either the square exit of round 1 or a panic
-      by_cases he : n * (1 + j) = n
+    · by_cases he : n * (1 + j) = n
       · rw [attempt_eq hs hlt, if_pos (by omega)] at h2
         injection h2 with h2; injection h2 with ha hb
         exact .square _ (by omega) ha.symm hb.symm
-      · rw [attempt_square_panic hs (by omega) hlt hsq he] at h2
+      · rw [attempt_square_skips hs hlt hsq he] at h2
         simp at h2
     · obtain ⟨r, hr, hcase⟩ := attempt_nonsquare hs hlt hsq
       rw [hr] at h2
@@ -124,171 +125,94 @@ theorem squfof_exit {seed : Nat → Nat} (hs : SeedOK seed) {n a b : Nat}
   · rw [attempt_stop hge] at h2
     simp at h2
 
-/-- **C01, proper split**: for every `n ≥ 2` a returned pair is a factorisation into two factors
-strictly between 1 and `n` (no hypothesis on the size of `n`: the trivial split `a = n` would need
-a round `k > n`, and round `k = n` panics before). -/
-theorem squfof_proper {seed : Nat → Nat} (hs : SeedOK seed) {n a b : Nat} (hn : 2 ≤ n)
-    (h : squfof seed n = some (some (a, b))) :
-    a * b = n ∧ 1 < a ∧ a < n ∧ 1 < b ∧ b < n := by
-  have hp := (squfof_exit hs h).pairOK hn
-  obtain ⟨h1, h2, h3⟩ := hp
-  refine ⟨h1, h2, ?_, h3, ?_⟩
-  · rcases Nat.lt_or_ge a n with h | h
-    · exact h
-    · have : n * 2 ≤ a * b := Nat.mul_le_mul h h3
-      omega
-  · rcases Nat.lt_or_ge b n with h | h
-    · exact h
-    · have : 2 * n ≤ a * b := Nat.mul_le_mul h2 h
-      omega
+/-- the 15 primes ≤ 47 -/
+def smallPrimes47 : List Nat := [2, 3, 5, 7, 11, 13, 17, 19, 23, 29, 31, 37, 41, 43, 47]
 
-/-- the model as the `squfof` field of the oracle record of Model/Factor.lean (a panic of the
-model is not representable there and is mapped to `None`; `squfof_no_panic_reachable` shows it does
-not occur on what `factor()` hands over) -/
-def squfofField (seed : Nat → Nat) {σ : Type} (t : σ) (n : Nat) : Option (Nat × Nat) × σ :=
-  ((squfof seed n).getD none, t)
+/-- row `n` of the table for `n ≤ 50`: a pair is returned and it is proper, or it is `(n, 1)`
+and `n` is a prime ≤ 47 -/
+def smallRow (n : Nat) : Bool :=
+  let r := ((squfof exactSeed n).getD none).getD (0, 0)
+  (squfof exactSeed n == some (some r)) &&
+    ((r.1 * r.2 == n && decide (1 < r.1) && decide (r.1 < n) && decide (1 < r.2) && decide (r.2 < n))
+      || (r.1 == n && r.2 == 1 && smallPrimes47.contains n))
 
-/-- **C01 link**: an oracle whose `squfof` field is the model satisfies `UsesSqufofExit`, the
-premise of the closed factor theorems (Props/C01Closed.lean) that was justified by K/O only;
-the named fact `0 < p_prev < n` of `SqufofExit.gcd` is discharged by the invariant. -/
-theorem squfof_uses_exit {seed : Nat → Nat} (hs : SeedOK seed) {σ : Type} (o : Ymq.Factor.Oracle σ)
-    (ho : ∀ t n, (o.squfof t n).1 = (squfofField seed t n).1) : Ymq.Factor.UsesSqufofExit o := by
-  intro t n a b h
-  rw [ho] at h
-  unfold squfofField at h
-  cases hr : squfof seed n with
-  | none => rw [hr] at h; simp at h
-  | some r =>
-    rw [hr] at h
-    simp only [Option.getD_some] at h
-    subst h
-    exact squfof_exit hs hr
-
-/-- **exactly when round `k` panics**: `n·k` fits in 64 bits, is a perfect square and is not `n`
-itself (i.e. `k ≥ 2`, `n ≥ 1`): `q = nk − nsqrt² = 0` and squfof.rs:33 divides by it. Every other
-round meets no overflow, underflow, division by zero or failed assertion. -/
-theorem attempt_panic_iff {seed : Nat → Nat} (hs : SeedOK seed) {n k : Nat} (hk : 1 ≤ k) :
-    attempt seed n k = none ↔ n * k < 2 ^ 64 ∧ IsSquare (n * k) ∧ n * k ≠ n := by
-  rw [attempt_none_iff hs hk]
-  have e : IsSquare (n * k) ↔ Nat.sqrt (n * k) * Nat.sqrt (n * k) = n * k := by
-    rw [← Nat.exists_mul_self]
-    constructor
-    · rintro ⟨r, hr⟩; exact ⟨r, hr.symm⟩
-    · rintro ⟨r, hr⟩; exact ⟨r, hr.symm⟩
-  rw [e]
-  rfl
-
-/-- **exactly when `squfof(n)` panics**: some round `2 ≤ k ≤ 50` is reached (all earlier rounds
-`continue`) with `n·k < 2^64` a perfect square. -/
-theorem squfof_panic_iff {seed : Nat → Nat} (hs : SeedOK seed) (n : Nat) :
-    squfof seed n = none ↔
-      ∃ k, 2 ≤ k ∧ k ≤ 50 ∧ 0 < n ∧ n * k < 2 ^ 64 ∧ IsSquare (n * k) ∧
-        ∀ j, 1 ≤ j → j < k → attempt seed n j = some .next := by
-  constructor
-  · intro h
-    obtain ⟨j, hj, hnext, hres⟩ := kLoop_first n 50 1 _ h (by simp)
-    rcases hres with ⟨_, h0⟩ | ⟨a', b', h1, _⟩
-    · obtain ⟨p1, p2, p3⟩ := (attempt_panic_iff hs (by omega)).1 h0
-      have hj0 : j ≠ 0 := by
-        rintro rfl
-        simp at p3
-      have hn0 : 0 < n := by
-        rcases Nat.eq_zero_or_pos n with rfl | h
-        · simp at p3
-        · exact h
-      refine ⟨1 + j, by omega, by omega, hn0, p1, p2, ?_⟩
-      intro i hi1 hi2
-      have := hnext (i - 1) (by omega)
-      rwa [show 1 + (i - 1) = i by omega] at this
-    · simp at h1
-  · rintro ⟨k, hk2, hk50, hn0, hlt, hsq, hnext⟩
-    apply kLoop_none_of n 50 1 (k - 1) (by omega)
-    · rw [show 1 + (k - 1) = k by omega]
-      apply (attempt_panic_iff hs (by omega)).2 ⟨hlt, hsq, ?_⟩
-      intro he
-      have : n * 2 ≤ n * k := Nat.mul_le_mul_left n hk2
-      omega
-    · intro i hi
-      exact hnext (1 + i) (by omega) (by omega)
-
-/-- **C03, no panic (partial: the excluded set is exact by `squfof_panic_iff`)**: `squfof(n)` meets
-no panic site whenever `n` is a perfect square or no `n·k`, `2 ≤ k ≤ 50`, `n·k < 2^64`, is one.
-The full statement (every `n < 2^64`) is FALSE: `squfof_panics_on_2`,
-`squfof_panics_on_small_primes`, `squfof_panics_on_50`, `squfof_panics_on_6000163058`. -/
-theorem squfof_no_panic_partial {seed : Nat → Nat} (hs : SeedOK seed) (n : Nat)
-    (h : IsSquare n ∨ ∀ k, 2 ≤ k → k ≤ 50 → n * k < 2 ^ 64 → ¬ IsSquare (n * k)) :
-    ∃ r, squfof seed n = some r := by
-  cases hr : squfof seed n with
-  | some r => exact ⟨r, rfl⟩
-  | none =>
-    exfalso
-    obtain ⟨k, hk2, hk50, hn0, hlt, hsq, hnext⟩ := (squfof_panic_iff hs n).1 hr
-    rcases h with hsqn | h
-    · -- n a perfect square: round 1 returns, it does not `continue`
-      have h1 := hnext 1 (by omega) (by omega)
-      obtain ⟨r, hr⟩ := hsqn
-      have hlt1 : n * 1 < W := by
-        have : n * 1 ≤ n * k := Nat.mul_le_mul_left n (by omega)
-        unfold W; omega
-      rw [attempt_eq hs hlt1, Nat.mul_one, if_pos (by rw [hr, Nat.sqrt_eq])] at h1
-      simp at h1
-    · exact h k hk2 hk50 hlt hsq
-
-/-- **C03, no panic on everything `factor()` hands over**: `factor()` divides out the primes
-≤ 199 before any algorithm runs (lib.rs:184-198), so the argument of `squfof::squfof` has no prime
-factor ≤ 47; then no `n·k` with `k ≤ 50` is a perfect square unless `n` is one. -/
-theorem squfof_no_panic_reachable {seed : Nat → Nat} (hs : SeedOK seed) (n : Nat)
-    (hsmall : ∀ p, Nat.Prime p → p ≤ 47 → ¬ p ∣ n) : ∃ r, squfof seed n = some r := by
-  by_cases hsqn : IsSquare n
-  · exact squfof_no_panic_partial hs n (Or.inl hsqn)
-  · apply squfof_no_panic_partial hs n (Or.inr ?_)
-    intro k hk2 hk50 _ hsq
-    apply hsqn
-    -- n and k are coprime
-    have hcop : Nat.Coprime n k := by
-      rw [Nat.coprime_iff_gcd_eq_one, ← Nat.coprime_iff_gcd_eq_one]
-      by_contra hnc
-      obtain ⟨p, hp, hpn, hpk⟩ := Nat.Prime.not_coprime_iff_dvd.1 hnc
-      have hple : p ≤ 50 := Nat.le_trans (Nat.le_of_dvd (by omega) hpk) hk50
-      have hp47 : p ≤ 47 := by
-        rcases (by omega : p ≤ 47 ∨ p = 48 ∨ p = 49 ∨ p = 50) with h | rfl | rfl | rfl
-        · exact h
-        · exact absurd hp (by decide)
-        · exact absurd hp (by decide)
-        · exact absurd hp (by decide)
-      exact hsmall p hp hp47 hpn
-    obtain ⟨c, hc⟩ := hsq
-    have hu : IsUnit (gcd n k) := by
-      rw [show gcd n k = Nat.gcd n k from rfl, hcop]
-      exact isUnit_one
-    obtain ⟨d, hd⟩ := exists_eq_pow_of_mul_eq_pow hu (show n * k = c ^ 2 by rw [hc]; ring)
-    exact ⟨d, by rw [hd]; ring⟩
-
-/-! ### counter-witnesses to the full statement (evaluated with the exact seed, transferred to
-every admissible seed) -/
-
-theorem squfof_panics_on_2 {seed : Nat → Nat} (hs : SeedOK seed) : squfof seed 2 = none := by
-  rw [squfof_seed_irrelevant hs exactSeed_ok]
+theorem smallTable : (List.range 51).all (fun n => decide (n < 2) || smallRow n) = true := by
   decide +kernel
 
-/-- every prime `p ≤ 47`: rounds `k < p` cannot split a prime, round `k = p` divides by zero -/
-theorem squfof_panics_on_small_primes {seed : Nat → Nat} (hs : SeedOK seed) :
-    ∀ p ∈ [2, 3, 5, 7, 11, 13, 17, 19, 23, 29, 31, 37, 41, 43, 47], squfof seed p = none := by
+/-- **C01, proper split**: for every `n ≥ 2` that is not one of the primes ≤ 47 a returned pair is a
+factorisation into two factors strictly between 1 and `n`. The excluded set is exact
+(`squfof_trivial_split_small_primes`); `factor()` hands over composites ≥ 211² only. -/
+theorem squfof_proper {seed : Nat → Nat} (hs : SeedOK seed) {n a b : Nat} (hn : 2 ≤ n)
+    (hp : n ∉ smallPrimes47) (h : squfof seed n = some (some (a, b))) :
+    a * b = n ∧ 1 < a ∧ a < n ∧ 1 < b ∧ b < n := by
+  rcases Nat.lt_or_ge n 51 with hsmall | hbig
+  · rw [squfof_seed_irrelevant hs exactSeed_ok] at h
+    have ht := smallTable
+    rw [List.all_eq_true] at ht
+    have hrow := ht n (List.mem_range.2 hsmall)
+    have hn2 : decide (n < 2) = false := by simp; omega
+    rw [hn2, Bool.false_or] at hrow
+    unfold smallRow at hrow
+    rw [h] at hrow
+    simp only [Option.getD_some, beq_self_eq_true, Bool.true_and, Bool.or_eq_true,
+      Bool.and_eq_true, beq_iff_eq, decide_eq_true_eq, List.contains_iff_mem] at hrow
+    rcases hrow with ⟨⟨⟨⟨h1, h2⟩, h3⟩, h4⟩, h5⟩ | ⟨_, hmem⟩
+    · exact ⟨h1, h2, h3, h4, h5⟩
+    · exact absurd hmem hp
+  · have hpk := (squfof_exit hs hbig h).pairOK hn
+    obtain ⟨h1, h2, h3⟩ := hpk
+    refine ⟨h1, h2, ?_, h3, ?_⟩
+    · rcases Nat.lt_or_ge a n with h | h
+      · exact h
+      · have : n * 2 ≤ a * b := Nat.mul_le_mul h h3
+        omega
+    · rcases Nat.lt_or_ge b n with h | h
+      · exact h
+      · have : 2 * n ≤ a * b := Nat.mul_le_mul h2 h
+        omega
+
+/-- **witnesses that the exclusion in `squfof_proper` is exact**: for every prime `p ≤ 47` the
+repaired code returns the trivial split `(p, 1)` (a round `k > p` finds `p_prev` divisible by `p`;
+the code guards `f > 1` only). Before the repair these calls divided by zero in round `k = p`. -/
+theorem squfof_trivial_split_small_primes {seed : Nat → Nat} (hs : SeedOK seed) :
+    ∀ p ∈ smallPrimes47, squfof seed p = some (some (p, 1)) := by
   intro p hp
   rw [squfof_seed_irrelevant hs exactSeed_ok]
   revert p
   decide +kernel
 
-/-- a composite: `50 = 2·5²`, round 1 fails, round 2 has `nk = 100` -/
-theorem squfof_panics_on_50 {seed : Nat → Nat} (hs : SeedOK seed) : squfof seed 50 = none := by
-  rw [squfof_seed_irrelevant hs exactSeed_ok]
-  decide +kernel
+/-- the model, on the arguments `factor()` can produce (`n ≥ 51`; every argument of
+`squfof::squfof` inside `factor_impl` is a composite without prime factor ≤ 199, so `n ≥ 211²`),
+as the `squfof` field of the oracle record of Model/Factor.lean. Below 51 the field answers
+`None`: there the real function may return `(p, 1)`, which the contract does not allow. -/
+def squfofField (seed : Nat → Nat) {σ : Type} (t : σ) (n : Nat) : Option (Nat × Nat) × σ :=
+  (if n ≤ 50 then none else (squfof seed n).getD none, t)
 
-/-- a 33-bit composite without tiny structure: `6000163058 = 2·54773²` -/
-theorem squfof_panics_on_6000163058 {seed : Nat → Nat} (hs : SeedOK seed) :
-    squfof seed 6000163058 = none := by
-  rw [squfof_seed_irrelevant hs exactSeed_ok]
-  decide +kernel
+/-- **C01 link**: an oracle whose `squfof` field answers `Some` only for `n ≥ 51` and then as the
+model does satisfies `UsesSqufofExit`, the premise of the closed factor theorems
+(Props/C01Closed.lean) that was justified by K/O only; the named fact `0 < p_prev < n` of
+`SqufofExit.gcd` is discharged by the invariant. -/
+theorem squfof_uses_exit {seed : Nat → Nat} (hs : SeedOK seed) {σ : Type} (o : Ymq.Factor.Oracle σ)
+    (ho : ∀ t n a b, (o.squfof t n).1 = some (a, b) → 51 ≤ n ∧ squfof seed n = some (some (a, b))) :
+    Ymq.Factor.UsesSqufofExit o := by
+  intro t n a b h
+  obtain ⟨hn, hm⟩ := ho t n a b h
+  exact squfof_exit hs hn hm
+
+theorem squfofField_spec (seed : Nat → Nat) {σ : Type} (t : σ) (n a b : Nat)
+    (h : (squfofField seed t n).1 = some (a, b)) : 51 ≤ n ∧ squfof seed n = some (some (a, b)) := by
+  unfold squfofField at h
+  simp only [] at h
+  by_cases hn : n ≤ 50
+  · rw [if_pos hn] at h; simp at h
+  · rw [if_neg hn] at h
+    refine ⟨by omega, ?_⟩
+    cases hr : squfof seed n with
+    | none => rw [hr] at h; simp at h
+    | some r =>
+      rw [hr] at h
+      simp only [Option.getD_some] at h
+      rw [h]
 
 /-! ### non-vacuity -/
 
@@ -316,12 +240,18 @@ example : squfof exactSeed 10007 = some none := by decide +kernel
 itself, on the first multiplier that overflows -/
 example : attempt exactSeed 18446744073709551557 2 = some .stop := by decide +kernel
 
-/-- the hypotheses of `squfof_no_panic_reachable` / `squfof_proper` hold for a concrete input -/
-example : ∃ r, squfof exactSeed 58447 = some r :=
-  squfof_no_panic_partial exactSeed_ok 58447 (Or.inr (by decide +kernel))
+/-- the repaired inputs answer what the real code answers now (they divided by zero before) -/
+example : squfof exactSeed 2 = some (some (2, 1)) := by decide +kernel
+example : squfof exactSeed 50 = some (some (2, 25)) := by decide +kernel
+example : squfof exactSeed 6000163058 = some (some (2, 3000081529)) := by decide +kernel
 
+/-- a skipped round: `50·2 = 10²` -/
+example : attempt exactSeed 50 2 = some .next := by decide +kernel
+
+/-- the hypotheses of `squfof_proper` hold for a concrete input -/
 example : 211 * 277 = 58447 ∧ 1 < 211 ∧ 211 < 58447 ∧ 1 < 277 ∧ 277 < 58447 :=
-  squfof_proper exactSeed_ok (by decide) (by decide +kernel : squfof exactSeed 58447 = some (some (211, 277)))
+  squfof_proper exactSeed_ok (by decide) (by decide)
+    (by decide +kernel : squfof exactSeed 58447 = some (some (211, 277)))
 
 /-! ### the model inside the control-flow model of `factor()` -/
 
@@ -331,14 +261,14 @@ replaced by the SQUFOF model -/
 def sqOracle : Oracle Unit := { modelOracle with squfof := squfofField exactSeed }
 
 open Ymq.Factor Ymq.Factor.Closed in
-example : UsesSqufofExit sqOracle := squfof_uses_exit exactSeed_ok sqOracle (fun _ _ => rfl)
+theorem sqOracle_uses_exit : UsesSqufofExit sqOracle :=
+  squfof_uses_exit exactSeed_ok sqOracle (fun t n a b h => squfofField_spec exactSeed t n a b h)
 
 open Ymq.Factor Ymq.Factor.Closed in
 /-- every premise of the closed factor theorems holds for it -/
 example : OracleOK sqOracle :=
   oracleOK_of_models_aux (o := sqOracle) model_pp model_finalStep model_qs64 model_rho model_pm1
-    model_ecm (squfof_uses_exit exactSeed_ok sqOracle (fun _ _ => rfl)) model_unexpected
-    ⟨model_residual.unexpectedNotWhole⟩
+    model_ecm sqOracle_uses_exit model_unexpected ⟨model_residual.unexpectedNotWhole⟩
 
 open Ymq.Factor in
 /-- `factor(4·58447, Algo::Squfof)`: trial division, then the modelled SQUFOF splits 211·277 with
